@@ -37,7 +37,7 @@ fn info(tier: Tier) -> CheckInfo {
             if tier.is_quick() { "{1,2,3}" } else { "{1,2,3,4}" }
         ),
         assumptions: vec![
-            "built like a release build of the crate (no overflow checks)".into(),
+            "optimised build with integer overflow checks on (an overflowing counter panics instead of wrapping)".into(),
             "endpoint replies faster than 500 ms count as in time (the request timeout never drops below 500 ms)".into(),
         ],
     };
